@@ -206,13 +206,16 @@ func consolePhase() []string {
 	defer func() { zerolog.ErrorHandler = oldH }()
 	for r := 0; r < 4; r++ {
 		out := &flakyOut{}
-		cw := zerolog.ConsoleWriter{Out: out, NoColor: true, PartsExclude: []string{zerolog.TimestampFieldName}}
+		cw := zerolog.ConsoleWriter{Out: out, NoColor: true, PartsExclude: []string{zerolog.TimestampFieldName}, FieldsExclude: []string{"zz", "hidden", "aa", "mm", "bb"}}
 		format := "INF m g=%d k=%d"
 		if r%2 == 1 {
 			// a writer made by the constructor, with a field order: its FIRST events are concurrent (whatever it computes lazily
 			// from its configuration is computed while several goroutines are inside Write)
 			cw = zerolog.NewConsoleWriter(func(w *zerolog.ConsoleWriter) {
 				w.Out, w.NoColor, w.PartsExclude, w.FieldsOrder = out, true, []string{zerolog.TimestampFieldName}, []string{"k", "g"}
+				// ... and an exclusion list that is not in alphabetical order: the writer may read its configuration from many
+				// goroutines, it must not rearrange it
+				w.FieldsExclude = []string{"zz", "hidden", "aa", "mm", "bb"}
 			})
 			format = "INF m k=%[2]d g=%[1]d"
 		}
@@ -224,7 +227,7 @@ func consolePhase() []string {
 			go func(g int) {
 				defer wg.Done()
 				for k := 0; k < K; k++ {
-					l.Info().Int("g", g).Int("k", k).Str("s", "x y").Msg("m")
+					l.Info().Int("g", g).Int("k", k).Str("s", "x y").Int("hidden", 1).Int("aa", 2).Msg("m")
 				}
 			}(g)
 		}
